@@ -186,7 +186,7 @@ func c03Cases(seed int64, tier string) []core.Case {
 		}
 	}
 	// ext4
-	for i, cfg := range []Ext4Cfg{{Size: 8 << 20}, {Size: 8<<20 + 1536, Start: 512}, {Size: 16 << 20, Start: 1 << 20}, {Size: 32<<20 + 4096, SPB: 8, Off: []string{"resize_inode"}, Start: 4<<30 + 4096}, {Size: 12<<20 + 512, Start: 4096}} {
+	for i, cfg := range []Ext4Cfg{{Size: 8 << 20, Off: []string{"resize_inode"}}, {Size: 9<<20 + 1536, Start: 512}, {Size: 16 << 20, Start: 1 << 20}, {Size: 32<<20 + 4096, SPB: 8, Off: []string{"resize_inode"}, Start: 4<<30 + 4096}, {Size: 12<<20 + 512, Start: 4096}} {
 		cs = append(cs, core.MkCase(fmt.Sprintf("ext4-random-%d", i), "fs-ext4", r.Int63(), ext4Case{Cfg: cfg, Mode: "random", Steps: 70, Handles: true}))
 		if i < 3 || tier == "thorough" {
 			cs = append(cs, core.MkCase(fmt.Sprintf("ext4-fill-%d", i), "fs-ext4", r.Int63(), ext4Case{Cfg: cfg, Mode: "fill"}))
